@@ -1,6 +1,7 @@
 import Vorbis.File.Model
 import Vorbis.Proofs.DecHalf
 import Vorbis.Props.C04
+import Vorbis.Proofs.Half
 namespace Vorbis.Props.C20
 open Vorbis Vorbis.File Vorbis.Block Vorbis.Props.C04
 
@@ -126,5 +127,36 @@ theorem C20_encode_then_halfrate (z : Sizes) (s : SzOk z) (sh : SzHalf z) (pre p
 example : SzHalf { bs0 := 256, bs1 := 2048 } := ⟨by decide, by decide, by decide, by decide⟩
 example : sum (Dec.drainAll { bs0 := 256, bs1 := 2048 } 1 (Dec.restart { bs0 := 256, bs1 := 2048 } 1)
     [{ W := false, gp := 0, eos := false, seq := 3 }, { W := true, gp := -1, eos := false, seq := 4 }, { W := false, gp := 901, eos := true, seq := 5 }]) = 451 := by decide
+
+open Vorbis.Props.C07 Vorbis.Proofs.FileInv Vorbis.Proofs.Half in
+/-- **C20_toggle_keeps_the_handle** — at any point of any call history (every consistent seekable handle): `ov_halfrate`, accepted or
+refused, leaves a consistent handle on the same file; of everything `ov_open` fixed only the decode-rate flag may differ, and it is the
+flag the decision logic (`C20_flags`) yields. -/
+theorem C20_toggle_keeps_the_handle (ph : Phys) (flag : Bool) (s : VF) (hi : SInv s) :
+    let t := ((halfrate ph flag).run s).2
+    SInv t ∧ SameButRate s t ∧ (s.infos.size ≠ 0 → t.hs = (halfrateFlags s flag).1) :=
+  halfrate_post ph flag s s ⟨rfl, hi⟩
+
+open Vorbis.Props.C07 Vorbis.Proofs.FileInv Vorbis.Proofs.Half in
+/-- **C20_off_restores_the_full_rate_handle** — switch half-rate on at any point of a history (handle `s`, full rate), run ANY history
+of reads and seeks (plain, lapped, by time) at half rate, switch it off: the handle is consistent and describes exactly the file and
+settings of `s` again, so by `C07_seek_history_independent` every later sample seek leaves the state a handle that never used
+half-rate is left in. -/
+theorem C20_off_restores_the_full_rate_handle (ph : Phys) (s t1 : VF) (hi : SInv s) (h0 : s.hs = 0) (hn : s.infos.size ≠ 0)
+    (hist : Reach ph ((halfrate ph true).run s).2 t1) :
+    let t2 := ((halfrate ph false).run t1).2
+    SInv t2 ∧ SameFile s t2 := by
+  obtain ⟨i1, r1, _⟩ := C20_toggle_keeps_the_handle ph true s hi
+  have j1 := reach_inv (jOps ((halfrate ph true).run s).2) ph _ t1 hist ⟨i1, sameFile_refl _⟩
+  have n1 : t1.infos.size ≠ 0 := by
+    have e1 : s.infos = ((halfrate ph true).run s).2.infos := r1.infos
+    rw [← j1.2.infos, ← e1]; exact hn
+  obtain ⟨i2, r2, e2⟩ := C20_toggle_keeps_the_handle ph false t1 j1.1
+  refine ⟨i2, sameFile_of_rate (sameButRate_trans r1 (sameButRate_trans (sameButRate_of_file j1.2) r2)) ?_⟩
+  rw [e2 n1, C20_off_never_refused, h0]
+
+/-- non-vacuity: the freshly opened example handle of C07 meets the hypotheses -/
+example : Proofs.FileInv.SInv Props.C07.exFresh ∧ Props.C07.exFresh.hs = 0 ∧ Props.C07.exFresh.infos.size ≠ 0 :=
+  ⟨Proofs.FileInv.sinv_of_opened _ rfl rfl, rfl, by decide⟩
 
 end Vorbis.Props.C20
